@@ -441,6 +441,8 @@ func failingCase(fault string, k int, queue string) harness.Case {
 			switch fault {
 			case "never-accepts":
 				n3.lis.Refuse = true
+			case "tls-silent":
+				n3.lis.Silent = true
 			case "starts-late":
 				// unreachable for the first k seconds (connection refused), healthy afterwards
 				n3.lis.Refuse = true
@@ -665,7 +667,7 @@ func gen(c *harness.C) []harness.Case {
 			cases = append(cases, concurrentCase(s, k, sh))
 		}
 	}
-	for _, f := range []string{"never-accepts", "never-reads", "garbles-back"} {
+	for _, f := range []string{"never-accepts", "tls-silent", "never-reads", "garbles-back"} {
 		cases = append(cases, failingCase(f, 0, "default"))
 	}
 	maxK := 120
